@@ -581,6 +581,124 @@ by rewrite ler_nat leq_addr.
 Qed.
 End DProofs.
 
+
+Section MProofs.
+Variable A : arith C C C.
+Variables um ua uh ur epsv : C.
+Hypothesis SR : std_round A um ua uh ur epsv.
+
+(* ------------------------------------------------------------------ mps_mnewton, dense polynomial *)
+(* E / S >= e_m: apeps = ap * ep, ep = ep0 * n (ep0 = 2^(2-wp) in the library) *)
+Definition e_m (n : nat) (ep0 : C) : C := (1 - ur) ^+ 2 * (n%:R * ep0) * kap uh ur n.
+(* what the radius arithmetic keeps, the final factor 1 + 16 DBL_EPSILON included *)
+Definition rho_m : C := (1 - ur) ^+ 6 * (1 + (1 - ur) * (16%:R * epsv)).
+
+Lemma mnewton_dense_main n (cs ms : seq C) z ep0 r0 :
+  let ph := ph_of A z cs in let dh := dh_of A z cs in
+  ph != 0 -> dh != 0 ->
+  mnewton_dense A n cs ms z ep0 r0 =
+    let ep := rmuld A ep0 (dnat A n) in
+    let ap := apsum A (cmod A z) (List.rev ms) in
+    let absp := cmod A ph in let temp := cmod A dh in
+    let apeps := rmul A ap ep in
+    let again := rgt A absp apeps in
+    let rnew := rdiv A (radd A absp apeps) temp in
+    let rad := if again then rmuld A rnew (dnat A n) else rmuld A rnew (dnat A (n + 1)) in
+    let rad := radd_eq A rad (rmul A (cmod A z) ep) in
+    let rad := rmuld A rad (dadd A (dnat A 1) (dmul A (dnat A 16) (deps A))) in
+    Nout ph dh ap absp again (cdiv A ph dh) rad.
+Proof.
+rewrite /mnewton_dense /ph_of /dh_of; case: (horner2 _ _ _) => p p1 /= pn0 dn0.
+by rewrite /mnewton_tail !(sr_ceq0 SR) (negbTE pn0) (negbTE dn0) /=.
+Qed.
+
+Theorem mnewton_dense_sound n (cs ms : seq C) z ep0 r0 eta :
+  size cs = n.+1 -> ms_ok uh cs ms -> last 0 cs != 0 -> 0 <= ep0 ->
+  let o := mnewton_dense A n cs ms z ep0 r0 in
+  ph_of A z cs != 0 -> dh_of A z cs != 0 ->
+  `|dh_of A z cs - (Poly cs)^`().[z]| <= eta * `|dh_of A z cs| -> 0 <= eta -> eta < 1 ->
+  COND uh rho_m (e_m n ep0) (gam um ua n) eta ->
+  exists2 w, root (Poly cs) w & `|z - w| <= o_rad o.
+Proof.
+move=> sz Hms Hl ep00 /= pn0' dn0 Hd eta0 eta1 HC.
+rewrite (mnewton_dense_main _ _ _ _ pn0' dn0) /=.
+set p := Poly cs.
+have szp : size p = n.+1 by apply: size_Poly_last.
+have pn0 : p != 0 by rewrite -size_poly_eq0 szp.
+have [Hv HS] := horner2_value_error SR z sz.
+have ur1' : 0 <= 1 - ur by rewrite subr_ge0 (ltW (sr_ur1 SR)).
+have Hep := sr_rmuld SR ep00 (ler0n _ n).
+have ep0' : 0 <= rmuld A ep0 (dnat A n).
+  by rewrite (sr_dnat SR); apply: near_ge0 Hep; rewrite ?(ltW (sr_ur1 SR)) // mulr_ge0 ?ler0n.
+have Haz := near_ge (sr_cmod SR z).
+have Hap := apsum_lower SR sz Hms Haz.
+have S0 := Sabs_ge0 cs z.
+have ap0 : 0 <= apsum A (cmod A z) (List.rev ms) by apply: le_trans Hap; rewrite mulr_ge0 ?(kap_ge0 SR).
+have HE0 := sr_rmul SR ap0 ep0'.
+set E := rmul A _ _ in HE0 *.
+have E0 : 0 <= E by apply: near_ge0 HE0; rewrite ?(ltW (sr_ur1 SR)) // mulr_ge0.
+have HE : e_m n ep0 * Sabs cs z <= E.
+  apply: le_trans (near_ge HE0).
+  have -> : e_m n ep0 * Sabs cs z = (1 - ur) * ((kap uh ur n * Sabs cs z) * ((1 - ur) * (ep0 * n%:R))) by rewrite /e_m; ring.
+  rewrite ler_wpmul2l //; apply: ler_pmul => //.
+  - by rewrite mulr_ge0 // (kap_ge0 SR).
+  - by rewrite !mulr_ge0 ?ler0n.
+  by rewrite (sr_dnat SR); exact: (near_ge Hep).
+have m0 := cmod_pos SR dn0.
+have a0 := cmod_ge0 SR (ph_of A z cs).
+have az0 := cmod_ge0 SR z.
+have t0 : 0 <= rmul A (cmod A z) (rmuld A ep0 (dnat A n)).
+  by apply: near_ge0 (sr_rmul SR az0 ep0'); rewrite ?(ltW (sr_ur1 SR)) // mulr_ge0.
+(* the constant 1 + 16 eps as computed *)
+set c16 := dadd A _ _.
+have Hc16 : (1 - ur) * (1 + (1 - ur) * (16%:R * epsv)) <= c16 /\ 0 <= c16.
+  have H1 := sr_dmul SR (ler0n _ 16) (sr_eps SR).
+  have x0 : 0 <= dmul A 16%:R epsv by apply: near_ge0 H1; rewrite ?(ltW (sr_ur1 SR)) // mulr_ge0 ?ler0n ?(sr_eps SR).
+  have H2 := sr_dadd SR (ler0n _ 1) x0.
+  rewrite /c16 !(sr_dnat SR) (sr_deps SR); split; last first.
+    by apply: near_ge0 H2; rewrite ?(ltW (sr_ur1 SR)) // addr_ge0 ?ler0n.
+  by apply: le_trans (near_ge H2); rewrite ler_wpmul2l // ler_add2l (near_ge H1).
+case: Hc16 => Hc16 c160.
+have core rad1 : (1 - ur) ^+ 3 * (n%:R * (cmod A (ph_of A z cs) + E) / cmod A (dh_of A z cs)) <= rad1 ->
+    exists2 w, root p w & `|z - w| <= rmuld A (radd_eq A rad1 (rmul A (cmod A z) (rmuld A ep0 (dnat A n)))) c16.
+  move=> Hrad.
+  have r1 : 0 <= rad1.
+    apply: le_trans Hrad; rewrite mulr_ge0 ?exprn_ge0 // mulr_ge0 ?invr_ge0 ?(ltW m0) // mulr_ge0 ?ler0n // addr_ge0 //.
+  have H2 := sr_radd_eq SR r1 t0.
+  have r2 : 0 <= radd_eq A rad1 (rmul A (cmod A z) (rmuld A ep0 (dnat A n))).
+    by apply: near_ge0 H2; rewrite ?(ltW (sr_ur1 SR)) // addr_ge0.
+  have H3 := sr_rmuld SR r2 c160.
+  have k0 : 0 <= 1 + (1 - ur) * (16%:R * epsv) by rewrite addr_ge0 ?ler01 // !mulr_ge0 ?ler0n ?(sr_eps SR).
+  apply: (@core_sound A um ua uh ur epsv SR p z (ph_of A z cs) (dh_of A z cs) (Sabs cs z) E _ rho_m (e_m n ep0) (gam um ua n) eta) => //.
+  - exact: (gam_ge0 SR).
+  - by rewrite /rho_m mulr_ge0 ?exprn_ge0.
+  rewrite szp /=.
+  apply: le_trans (near_ge H3).
+  have -> : rho_m * (n%:R * ((1 - uh) * `|ph_of A z cs| + E) / ((1 + uh) * `|dh_of A z cs|))
+          = (1 - ur) * (((1 - ur) * ((1 - ur) ^+ 3 * (n%:R * ((1 - uh) * `|ph_of A z cs| + E) / ((1 + uh) * `|dh_of A z cs|)))) * ((1 - ur) * (1 + (1 - ur) * (16%:R * epsv)))).
+    by rewrite /rho_m; ring.
+  rewrite ler_wpmul2l //.
+  have omuh : 0 <= 1 - uh by rewrite subr_ge0 (ltW (sr_uh1 SR)).
+  have opuh : 0 <= 1 + uh by rewrite (le_trans ler01) // ler_addl (sr_uh SR).
+  have F0 : 0 <= n%:R * ((1 - uh) * `|ph_of A z cs| + E) / ((1 + uh) * `|dh_of A z cs|).
+    by rewrite mulr_ge0 ?invr_ge0 // mulr_ge0 ?ler0n // addr_ge0 // mulr_ge0.
+  have X0 : 0 <= (1 - ur) * ((1 - ur) ^+ 3 * (n%:R * ((1 - uh) * `|ph_of A z cs| + E) / ((1 + uh) * `|dh_of A z cs|))).
+    by rewrite mulr_ge0 // mulr_ge0 ?exprn_ge0.
+  have Y0 : 0 <= (1 - ur) * (1 + (1 - ur) * (16%:R * epsv)) by rewrite mulr_ge0.
+  apply: (ler_pmul X0 Y0) => //.
+  apply: le_trans (near_ge H2); rewrite ler_wpmul2l //.
+  apply: (@le_trans _ _ rad1); last by rewrite ler_addl.
+  apply: le_trans Hrad; rewrite ler_wpmul2l ?exprn_ge0 //.
+  by apply: (frac_lower SR) => //; rewrite ler0n.
+case: ifP => _.
+  by apply: core; rewrite (sr_dnat SR); apply: (chain_d SR) => //; exact: ler0n.
+apply: core; rewrite (sr_dnat SR).
+apply: le_trans (chain_d SR a0 E0 (ler0n _ (n + 1)) m0).
+rewrite ler_wpmul2l ?exprn_ge0 // -!mulrA ler_wpmul2r ?mulr_ge0 ?invr_ge0 ?(ltW m0) ?addr_ge0 //.
+by rewrite ler_nat leq_addr.
+Qed.
+End MProofs.
+
 (* ------------------------------------------------------------------ the exact arithmetic is an instance *)
 Definition exactA (epsv : C) : arith C C C :=
   {| cmul := *%R; cadd := +%R; csub := fun a b => a - b; cmuld := *%R; cinv := GRing.inv; cinv_eq := GRing.inv;
